@@ -141,10 +141,11 @@ def jdec(o):
 class Out:
     """Outcome of checking one case."""
 
-    __slots__ = ("viol", "classes", "nontrivial", "dig", "sample", "n", "nt", "counts")
+    __slots__ = ("viol", "classes", "nontrivial", "dig", "sample", "n", "nt", "counts", "replay_case")
 
     def __init__(self, viol=None, classes=(), nontrivial=False, dig=None, sample=None, n=1, nt=None,
                  counts=None):
+        self.replay_case = None  # case to store in the replay file instead of the generated one
         self.n = n  # evaluations this case stands for (enumerations inside a case)
         self.nt = nt  # distinct non-trivial sub-cases enumerated inside this case
         self.counts = counts  # {class: count} for sub-cases
@@ -255,7 +256,7 @@ def handle(acc: Acc, out: Out, case, known, found=()):
         elif k not in found:
             new = True
             if not any(v["key"] == k for v in acc.violations):
-                acc.violations.append({"key": k, "case": jenc(case), "detail": d})
+                acc.violations.append({"key": k, "case": jenc(out.replay_case or case), "detail": d})
     return new
 
 
@@ -312,7 +313,7 @@ def hyp_search(acc: Acc, strategy, check, *, seed, max_examples, known, rounds=3
                 elif k not in found:
                     new.append((k, d))
             if new:
-                holder["last"] = (case, new)
+                holder["last"] = (out.replay_case or case, new)
                 holder["dig"] = digest(jenc(case))
                 holder.setdefault("t0", time.monotonic())
                 raise _Violated(new[0][0])
@@ -326,6 +327,16 @@ def hyp_search(acc: Acc, strategy, check, *, seed, max_examples, known, rounds=3
             acc.violations.append({"key": k, "case": jenc(case), "detail": d})
             continue
         except hypothesis.errors.HypothesisException as err:  # Flaky, health check ...
+            if "last" in holder and type(err).__name__ in ("Flaky", "FlakyFailure", "FlakyReplay"):
+                # a violation was observed but did not recur when Hypothesis
+                # replayed the example: the outcome depends on what ran before
+                # in this process.  The observation stands (it is not shrunk).
+                case, new = holder["last"]
+                k, d = new[0]
+                found.add(k)
+                acc.violations.append({"key": k, "case": jenc(case),
+                                       "detail": d + " [observed once; not reproducible on in-process replay]"})
+                continue
             acc.errors.append(f"hypothesis: {type(err).__name__}: {err}")
             break
         break
